@@ -17,7 +17,7 @@ import (
 func init() {
 	eng.Register(&eng.Check{
 		ID:          "C07",
-		Rule:        "E1/E2 differential over selector spellings: every path of 1..3 parts over the part alphabet {a, A, b, 0, 01, a/b, a~b, a.b, 'a b', ' a', e-acute, \"\", ~1, ~0, x~01 (keys that themselves contain escape-like text)} that is expressible in >=2 spellings x EVERY combination of per-part spelling (.ident, .digits, [\"..\"], [`..`], [ \"..\" ] with inner blanks, escape spelling, mixed within one selector; whole-selector JSON pointer with ~0/~1 escapes) x 8 operators x documents (nested string-keyed maps of depth 1..3 with a distinct leaf per path, struct/tag and list variants), also as quantified collection and inside quantifier bodies (alias-relative); oracle: grammar.Parse yields exactly the intended Path for every spelling and Evaluate's outcome is identical across the spellings of one path on every document; distinct leaves make case-/blank-variants select different keys. Distinct by construction; non-trivial = a (path, operator) group with >=2 spellings compared.",
+		Rule:        "E1/E2 differential over selector spellings: every path of 1..3 parts over the part alphabet {a, A, b, 0, 01, a/b, a~b, a.b, 'a b', ' a', e-acute, \"\", ~1, ~0, x~01 (keys that themselves contain escape-like text)} that is expressible in >=2 spellings x EVERY combination of per-part spelling (.ident, .digits, [\"..\"], [`..`], [ \"..\" ] with inner blanks, escape spelling, mixed within one selector; whole-selector JSON pointer with ~0/~1 escapes) x 8 operators x documents (nested string-keyed maps of depth 1..3 with a distinct leaf per path, struct/tag and list variants), also as quantified collection, inside quantifier bodies (alias-relative), and two different paths with colliding rendered text (a[\"a.b\"] vs a.a.b) inside ONE expression in every spelling pair; oracle: grammar.Parse yields exactly the intended Path for every spelling and Evaluate's outcome is identical across the spellings of one path on every document; distinct leaves make case-/blank-variants select different keys. Distinct by construction; non-trivial = a (path, operator) group with >=2 spellings compared.",
 		Assumptions: []string{"outcome classes only", "bounded part alphabet and depth"},
 		Run:         runC07,
 	})
@@ -312,6 +312,51 @@ func runC07(c *eng.Ctx) {
 							c.Count("body:" + v3name[first[di]])
 						}
 					}
+				}
+			}
+		}
+		// (4) two DIFFERENT paths inside one expression whose rendered texts collide (a part containing "." or "/" vs the
+		// split-up nested path): each selector must keep its own value whatever the spelling of the other
+		if len(path) == 2 && (strings.Contains(path[1], ".") || strings.Contains(path[1], "/")) && path[1] != "a/b" || len(path) == 2 && path[1] == "a.b" || len(path) == 2 && path[1] == "a/b" {
+			sep := "."
+			if strings.Contains(path[1], "/") {
+				sep = "/"
+			}
+			split := append([]string{path[0]}, strings.Split(path[1], sep)...)
+			if len(split) == 3 && identOK(split[0]) {
+				splitSps := c07Spellings(split, false)
+				var first []int
+				var firstSrc string
+				for _, spA := range sps {
+					for _, spB := range splitSps {
+						for _, tm := range []string{"%s is not empty and %s == " + RenderLit(leafID(split)), "%[2]s == " + RenderLit(leafID(split)) + " and %[1]s is not empty"} {
+							src := fmt.Sprintf(tm, spA, spB)
+							got := evalSrc(src)
+							c.R.States++
+							c.R.Traces++
+							if got == nil {
+								continue
+							}
+							if first == nil {
+								first, firstSrc = got, src
+								continue
+							}
+							for di := range ds {
+								if got[di] != first[di] && got[di] >= 0 && first[di] >= 0 {
+									c.Violate(eng.Violation{Kind: "spelling-changes-outcome-with-two-selectors", Key: "A=" + firstSrc + " | B=" + src + fmt.Sprintf(" | doc#%d", di), Coords: map[string]int{"p": pi},
+										Expected: v3name[first[di]], Observed: v3name[got[di]]})
+								}
+							}
+						}
+					}
+				}
+				if first != nil {
+					c.R.Nontrivial++
+					// on the depth-3 tree both selectors resolve: the conjunction must be true there
+					if first[2] != vT {
+						c.Violate(eng.Violation{Kind: "colliding-selectors-confused", Key: "expr=" + firstSrc + " | depth-3 tree", Coords: map[string]int{"p": pi}, Expected: "T", Observed: v3name[first[2]]})
+					}
+					c.Count("two-selectors:" + v3name[first[2]])
 				}
 			}
 		}
